@@ -525,7 +525,7 @@ func mutate(r *rand.Rand, st regState) regState {
 	}
 	for k, n := 0, 1+r.Intn(2); k < n && len(insts) > 0; k++ {
 		in := insts[r.Intn(len(insts))]
-		switch r.Intn(6) {
+		switch r.Intn(7) {
 		case 0, 1: // status flip of one service check
 			var own []int
 			for i, c := range cs {
@@ -563,6 +563,20 @@ func mutate(r *rand.Rand, st regState) regState {
 			toggle(in.node, "_node_maintenance", "", func() *api.HealthCheck { return nodeCheck(in.node, "_node_maintenance", "critical") })
 		case 4:
 			toggle(in.node, "_service_maintenance:"+in.sid, in.sid, func() *api.HealthCheck { return svcCheck(in, "_service_maintenance:"+in.sid, "critical") })
+		case 6: // re-registration of the same instance with other route tags and another port
+			for i := range insts {
+				if insts[i].node == in.node && insts[i].sid == in.sid {
+					insts[i].tags = genTags(r, false)
+					insts[i].port = 1000 + r.Intn(9000)
+					for j, c := range cs {
+						if c.Node == in.node && c.ServiceID == in.sid {
+							d := cp(c)
+							d.ServiceTags = append([]string{}, insts[i].tags...)
+							cs[j] = d
+						}
+					}
+				}
+			}
 		case 5: // deregistration
 			var keep []*api.HealthCheck
 			for _, c := range cs {
@@ -596,7 +610,7 @@ func partB(run *vh.Run) {
 		monitors     int
 	}
 	var hists []hist
-	// directed histories first: the two recorded defects and their neighbours
+	// directed histories first: the key collision (F-C01-1), blank-padded route tags (repaired F-C01-2) and their neighbours
 	okc := func(in inst, st string) *api.HealthCheck { return svcCheck(in, "service:"+in.sid, st) }
 	colA := inst{node: "a", sid: "b.c", name: "svc-a", tags: []string{"urlprefix-/one"}, addr: "10.0.0.1", port: 8001}
 	colB := inst{node: "a.b", sid: "c", name: "svc-a", tags: []string{"urlprefix-/two"}, addr: "10.0.0.2", port: 8002}
@@ -611,7 +625,7 @@ func partB(run *vh.Run) {
 			{[]inst{colA, colB}, []*api.HealthCheck{okc(colA, "critical"), okc(colB, "critical")}},
 			{[]inst{colA, colC}, []*api.HealthCheck{okc(colA, "critical"), okc(colC, "passing")}},
 		}},
-		hist{class: "svc-untrimmed-tag", prefix: tagPrefix, status: []string{"passing"}, states: []regState{
+		hist{class: "svc-blank-padded-tag", prefix: tagPrefix, status: []string{"passing"}, states: []regState{
 			{[]inst{sp}, []*api.HealthCheck{okc(sp, "passing")}},
 			{[]inst{sp, sp2}, []*api.HealthCheck{okc(sp, "passing"), okc(sp2, "passing")}},
 			{[]inst{sp2}, []*api.HealthCheck{okc(sp2, "passing")}},
